@@ -199,6 +199,45 @@ func (m *MW) StepQuoteLimits() {
 	m.rc.Nontrivial = true
 }
 
+// StepFillToMax: mint exactly up to the maximum balance, so that "balance has reached the maximum" occurs.
+func (m *MW) StepFillToMax() {
+	mint := "A"
+	W := m.W
+	lim := W.Mints[mint].Cfg.Limits
+	if lim.MaxBalance == 0 || len(m.Pending) > 0 || len(W.LN.InflightKeys()) > 0 {
+		m.StepFund()
+		return
+	}
+	W.Book.FinalizeMelts()
+	bi, br := m.bookTotals(mint)
+	var ti, tr uint64
+	for _, v := range bi {
+		ti += v
+	}
+	for _, v := range br {
+		tr += v
+	}
+	if ti-tr >= lim.MaxBalance {
+		return
+	}
+	room := lim.MaxBalance - (ti - tr)
+	if lim.MintingSettings.MaxAmount > 0 && room > lim.MintingSettings.MaxAmount {
+		room = lim.MintingSettings.MaxAmount
+	}
+	m.rc.Op(fmt.Sprintf("fill-to-max %d", room))
+	ks := W.ActiveKeyset(mint)
+	m.rc.S.BeginEpisode()
+	m.rc.S.Run1(m.name("fill"), W.Ext, func() {
+		q, _ := m.User.ReqMintQuote(mint, room, false)
+		if q == nil {
+			return
+		}
+		W.LN.PayExternal(q.Hash)
+		m.User.Mint(mint, q, W.NewOutputs(Split(room), ks.ID), "")
+		m.rc.S.Probe("c16_filled_to_max")
+	})
+}
+
 func runC16(rc *RunCtx) {
 	T := rc.T
 	pick := func(site string, param string, small, boundary uint64) uint64 {
@@ -233,11 +272,13 @@ func runC16(rc *RunCtx) {
 	})
 	m.CheckBalances("A", "start")
 	// weights:       fund swap melt resolve replay dup race checkstate restore restart clock adv internal rotate
-	weights := []int{0, 4, 3, 2, 1, 0, 1, 0, 0, 2, 0, 1, 1, 0}
+	weights := []int{1, 4, 4, 2, 1, 0, 1, 0, 0, 2, 0, 1, 1, 0}
 	rc.StepLoop(3, 14, func(i int) {
 		m.step = i
 		if T.Chance("limits", 1, 2) {
 			m.StepQuoteLimits()
+		} else if T.Chance("fill", 1, 4) {
+			m.StepFillToMax()
 		} else {
 			m.Step(T.Pick("step.kind", weights...), true)
 		}
